@@ -200,7 +200,7 @@ func (e *Env) pkgObject(pkg, name string) (Term, bool) {
 			}
 			addr := fv.globalAddr(g)
 			et := g.Type().Underlying().(*types.Pointer).Elem()
-			switch et.Underlying().(type) {
+			switch under(et).(type) {
 			case *types.Struct, *types.Array:
 				addr.T = types.NewPointer(et)
 				return addr, true // auto-address
@@ -369,7 +369,7 @@ func (e *Env) sel(n ESel) Term {
 		}
 		for _, f := range si.Fields {
 			if f.GoName == n.Sel {
-				switch f.Type.Underlying().(type) {
+				switch under(f.Type).(type) {
 				case *types.Struct, *types.Array:
 					r := add(x, intLit(f.Off))
 					r.T = types.NewPointer(f.Type)
@@ -419,7 +419,7 @@ func (e *Env) index(n EIndex) Term {
 		}
 		esz := fv.TE.Sizeof(st.Elem())
 		addr := fv.ix(slPtr(x), i, esz)
-		switch st.Elem().Underlying().(type) {
+		switch under(st.Elem()).(type) {
 		case *types.Struct:
 			addr.T = types.NewPointer(st.Elem())
 			return addr
@@ -442,7 +442,7 @@ func (e *Env) index(n EIndex) Term {
 		if at, ok := pt.Elem().Underlying().(*types.Array); ok {
 			esz := fv.TE.Sizeof(at.Elem())
 			addr := fv.ix(x, i, esz)
-			switch at.Elem().Underlying().(type) {
+			switch under(at.Elem()).(type) {
 			case *types.Struct:
 				addr.T = types.NewPointer(at.Elem())
 				return addr
@@ -1020,7 +1020,7 @@ func (e *Env) specCall(sf *SpecFunc, n ECall) Term {
 	if e.depth > 40 {
 		e.fail("spec function %s: expansion too deep (recursive?)", sf.Name)
 	}
-	ne := &Env{fv: fv, st: e.st, old: e.old, vars: map[string]Term{}, callee: true, depth: e.depth + 1, pos: sf.Pos, bound: e.bound}
+	ne := &Env{fv: fv, st: e.st, old: e.old, vars: map[string]Term{}, callee: true, depth: e.depth + 1, pos: sf.Pos}
 	for i, p := range sf.Params {
 		ne.vars[p.Name] = args[i]
 	}
@@ -1188,11 +1188,11 @@ func (e *Env) modTargets(x Expr) []modTarget {
 
 func (e *Env) touchHeapsOfType(t types.Type) {
 	fv := e.fv
-	switch t.Underlying().(type) {
+	switch under(t).(type) {
 	case *types.Struct:
 		si := fv.TE.StructInfo(t)
 		for _, f := range si.Fields {
-			switch f.Type.Underlying().(type) {
+			switch under(f.Type).(type) {
 			case *types.Struct:
 				e.touchHeapsOfType(f.Type)
 			case *types.Array:
@@ -1208,7 +1208,7 @@ func (e *Env) touchHeapsOfType(t types.Type) {
 
 func (e *Env) fieldTargets(st types.Type, f structField, base Term) []modTarget {
 	fv := e.fv
-	switch u := f.Type.Underlying().(type) {
+	switch u := under(f.Type).(type) {
 	case *types.Struct:
 		return e.typeTargets(f.Type, add(base, intLit(f.Off)))
 	case *types.Array:
@@ -1228,7 +1228,7 @@ func (e *Env) fieldTargets(st types.Type, f structField, base Term) []modTarget 
 
 func (e *Env) typeTargets(t types.Type, addr Term) []modTarget {
 	fv := e.fv
-	switch t.Underlying().(type) {
+	switch under(t).(type) {
 	case *types.Struct:
 		si := fv.TE.StructInfo(t)
 		var out []modTarget
